@@ -61,11 +61,21 @@ def classify(tr, l):
 
 def validate(prop, traces, rep, ev, spec="TraceWriteSession", cfg="TraceWriteSession.cfg", classify_fn=classify, batch=3000, origins=None):
     acc, results = tlc.validate_traces(spec, cfg, traces, extra_env={"EXPLAIN": "0"}, workers=8, batch=batch)
-    for r in results:
+    ndrift = 0
+    drifted = []
+    for bi, r in enumerate(results):
         ev.add_tlc(r, spec)
+        ndrift += len(r.prints.get("DRIFT", []))
+        drifted += [bi * batch + int(x) - 1 for x in r.prints.get("DRIFT", [])]
+    if drifted and os.environ.get("VERIF_DEBUG"):
+        with open(os.path.join(os.path.dirname(os.path.dirname(os.path.dirname(__file__))), ".scratch", f"drift_{prop}.json"), "w") as f:
+            json.dump([traces[k] for k in drifted[:200]], f)
         if not r.ok:
             raise MachineryError(f"{spec} run failed: {r.violated}\n{r.trace_text[:1500]}")
     ev.traces(len(traces))
+    if ndrift:
+        rep.note_drift(f"{ndrift} of {len(traces)} traces differ from the I-level prediction of {spec} without contradicting the property")
+        rep.drift.extend(["drift"] * (ndrift - 1))
     bad = [i for i in range(len(traces)) if i not in acc]
     if not bad:
         return
